@@ -6,6 +6,7 @@ import (
 	"bytes"
 	"context"
 	"encoding/json"
+	"errors"
 	"sort"
 
 	"github.com/restic/restic/internal/repository"
@@ -61,7 +62,8 @@ type c08Gen struct {
 	absent  []restic.BlobHandle
 	packs   []restic.ID
 	prev    []c08Pack
-	wide    bool // use values up to the 32-bit limits
+	wide    bool                // use values up to the 32-bit limits
+	pending []restic.BlobHandle // blobs announced by uploads that were aborted
 }
 
 func (g *c08Gen) u32() uint {
@@ -168,6 +170,9 @@ func c08Query(h *H, g *c08Gen, repo *repository.Repository, prefix string) {
 		qs = append(qs, g.handles[h.Intn(len(g.handles))])
 	}
 	qs = append(qs, g.absent[h.Intn(len(g.absent))])
+	for i := 0; i < 2 && len(g.pending) > 0; i++ {
+		qs = append(qs, g.pending[h.Intn(len(g.pending))])
+	}
 	for _, bh := range qs {
 		var pbs []*pack.PackedBlob
 		for _, pb := range repo.LookupBlob(bh) {
@@ -297,6 +302,37 @@ func c08History(h *H) {
 			}
 		case r < 11 && len(files) > 0:
 			remove(h.Intn(len(files)))
+		case (r == 12 || r == 13) && len(g.pending) == 0:
+			// an upload session announces 1..3 blobs (AddPending via SaveBlob) and is aborted before
+			// a pack is stored: the blobs are in no index file, a reload must forget them like a
+			// fresh load does. (A Repository object accepts no second uploader after an aborted one.)
+			errAbort := errors.New("upload aborted")
+			var bufs [][]byte
+			var bhs []restic.BlobHandle
+			for i := 1 + h.Intn(3); i > 0; i-- {
+				bufs = append(bufs, append([]byte("aborted upload "), h.Bytes(8+h.Intn(24))...))
+			}
+			err := repo.WithBlobUploader(ctx, func(ctx context.Context, uploader restic.BlobSaverWithAsync) error {
+				for _, buf := range bufs {
+					t := restic.DataBlob
+					if len(buf)%3 == 0 {
+						t = restic.TreeBlob
+					}
+					id, _, _, err := uploader.SaveBlob(ctx, t, buf, restic.ID{}, false)
+					if err != nil {
+						return err
+					}
+					bhs = append(bhs, restic.BlobHandle{ID: id, Type: t})
+				}
+				return errAbort
+			})
+			if !errors.Is(err, errAbort) {
+				panic(err)
+			}
+			for i, bh := range bhs {
+				g.pending = append(g.pending, bh)
+				h.Rec("pending", c48HandleTok(bh), Itoa(len(bufs[i])))
+			}
 		case r == 11 && allowBad:
 			garbage := [][]byte{[]byte(`{"packs": 5}`), []byte(`not json`), []byte(`{"packs":[{"id":"zz","blobs":[]}]}`)}[h.Intn(3)]
 			garbage = append(garbage, h.Bytes(2)...)
